@@ -209,3 +209,72 @@ func c05Structure(i int64, seed uint64, r *fw.Rec) {
 	r.Outcome("compared")
 	r.Held()
 }
+
+// A regex literal is part of the compiled expression: how it matches must not
+// depend on what it was matched against before. The patterns are alternations
+// whose first alternative that matches is not the longest one (so any switch of
+// the matching discipline shows), with branches that can match the empty string
+// for some inputs only; one Expr is evaluated on a history of inputs and each
+// outcome must be the one a fresh Expr gives for that input.
+var c05RegexPatterns = []string{`a|ab`, `a|ab|^x*`, `(a|ab)(c|bcd)?`, `x*|xy`, `b?|ba`, `(|a)b|ab+`, `a*?b|a+`, `(a|b)*?b`, `^|a|ab`, `a{1,2}?|aab`, `(?i)A|aB`, `[ab]|ab$`}
+
+var c05RegexTemplates = []string{
+	`$match(s, /RE/).match`,
+	`$replace(s, /RE/, "<$0>")`,
+	`$split(s, /RE/)`,
+	`$contains(s, /RE/)`,
+	`/RE/(s).[match, start, end]`,
+	`s ~> /RE/`,
+	`$match(s, /RE/).[match, index, groups]`,
+	`$replace(s, /RE/, function($m){"[" & $m.match & "]"})`,
+	`($r := /RE/; [$r(s).match, $r(s).next().match])`,
+	`$map(ss, function($x){$match($x, /RE/)[0].match})`,
+	`$replace(s, /RE/, "-", 2)`,
+	`$split(s, /RE/, 3)`,
+}
+
+func c05Regex(i int64, seed uint64, r *fw.Rec) {
+	rr := prng.New(seed, 0xC05D, uint64(i))
+	re := c05RegexPatterns[rr.Intn(len(c05RegexPatterns))]
+	prog := strings.ReplaceAll(c05RegexTemplates[rr.Intn(len(c05RegexTemplates))], "RE", re)
+	word := func() string {
+		n := rr.Range(0, 5)
+		b := make([]byte, n)
+		for k := range b {
+			b[k] = "aabbxcdyAB"[rr.Intn(10)]
+		}
+		return string(b)
+	}
+	mkDoc := func() string {
+		return gen.JSON(O{"s": word(), "ss": A{word(), word(), word()}})
+	}
+	first := mkDoc()
+	r.Begin(prog, first)
+	r.Tag("regex-literal-keeps-its-matching")
+	e, co := obs.Compile(prog)
+	if e == nil {
+		r.Violation("harness:regex-program-does-not-compile", prog+": "+co.String(), nil)
+		return
+	}
+	var hist []string
+	n := rr.Range(4, 9)
+	for k := 0; k < n; k++ {
+		doc := first
+		if k > 0 {
+			doc = mkDoc()
+		}
+		fe, _ := obs.Compile(prog)
+		r.Evals(2)
+		want := digest(obs.Eval(fe, decodeDoc(doc)), false, false)
+		got := digest(obs.Eval(e, decodeDoc(doc)), false, false)
+		hist = append(hist, doc)
+		if got != want {
+			r.Violation("outcome-changed:regex-literal-matches-differently-after-earlier-evaluations", fmt.Sprintf("%s on %s gave %q, a fresh Expr gives %q; history of this Expr: %s", prog, doc, clipS(got), clipS(want), strings.Join(hist, " | ")), nil)
+			return
+		}
+	}
+	r.Nontrivial(prog + fmt.Sprint(i))
+	r.Outcome("compared")
+	r.Held()
+	r.Sample("regex-literal-keeps-its-matching", map[string]any{"prog": prog, "history": hist})
+}
